@@ -170,7 +170,7 @@ func (fv *FnV) evalConversion(st *State, call *ast.CallExpr, to types.Type) Val 
 		return Val{f, to}
 	case isIntType(to) && isFloatType(from):
 		t := fv.name("f", v.T, "Real")
-		r := fmt.Sprintf("(ite (>= %s 0.0) (to_int %s) (- (to_int (- %s))))", t, t, t)
+		r := fv.roundInt(t, "trunc")
 		if it, ok := fv.intOf[v.T]; ok {
 			// the operand is an integer-valued float produced by Floor/Ceil/Round/Trunc
 			r = it
@@ -190,6 +190,49 @@ func (fv *FnV) evalConversion(st *State, call *ast.CallExpr, to types.Type) Val 
 	}
 	fv.unsupported(call, "conversion "+from.String()+" -> "+to.String())
 	return Val{fv.fresh("conv", fv.smt.sortOf(to)), to}
+}
+
+// roundInt returns an Int term for floor/ceil/trunc/round(x).  In code mode it is a fresh
+// constant tied to x by linear facts (easier for the solvers than to_int inside nonlinear
+// goals); in specifications it is the corresponding to_int expression.
+func (fv *FnV) roundInt(x, mode string) string {
+	expr := ""
+	switch mode {
+	case "floor":
+		expr = fmt.Sprintf("(to_int %s)", x)
+	case "ceil":
+		expr = fmt.Sprintf("(- (to_int (- %s)))", x)
+	case "trunc":
+		expr = fmt.Sprintf("(ite (>= %s 0.0) (to_int %s) (- (to_int (- %s))))", x, x, x)
+	case "round":
+		expr = fmt.Sprintf("(ite (>= %s 0.0) (to_int (+ %s 0.5)) (- (to_int (+ (- %s) 0.5))))", x, x, x)
+	}
+	if fv.spec || fv.noName {
+		return expr
+	}
+	if fv.rnd == nil {
+		fv.rnd = map[string]string{}
+	}
+	key := mode + ":" + x
+	if k, ok := fv.rnd[key]; ok {
+		return k
+	}
+	k := fv.fresh("ri", "Int")
+	kr := "(to_real " + k + ")"
+	var fact string
+	switch mode {
+	case "floor":
+		fact = fmt.Sprintf("(and (<= %s %s) (< %s (+ %s 1.0)))", kr, x, x, kr)
+	case "ceil":
+		fact = fmt.Sprintf("(and (< (- %s 1.0) %s) (<= %s %s))", kr, x, x, kr)
+	case "trunc":
+		fact = fmt.Sprintf("(ite (>= %s 0.0) (and (<= %s %s) (< %s (+ %s 1.0))) (and (< (- %s 1.0) %s) (<= %s %s)))", x, kr, x, x, kr, kr, x, x, kr)
+	case "round":
+		fact = fmt.Sprintf("(ite (>= %s 0.0) (and (<= (- %s 0.5) %s) (< %s (+ %s 0.5))) (and (< (- %s 0.5) %s) (<= %s (+ %s 0.5))))", x, kr, x, x, kr, kr, x, x, kr)
+	}
+	fv.decls = append(fv.decls, "(assert "+fact+")")
+	fv.rnd[key] = k
+	return k
 }
 
 func (fv *FnV) declareQuant() {
@@ -393,18 +436,7 @@ func (fv *FnV) evalExternal(st *State, call *ast.CallExpr, o *types.Func) []Val 
 		return []Val{{fmt.Sprintf("(ite (>= %s 0.0) %s (- %s))", a(0), a(0), a(0)), realT}}
 	case "math.Floor", "math.Ceil", "math.Trunc", "math.Round":
 		x := fv.name("fx", a(0), "Real")
-		var it string
-		switch full {
-		case "math.Floor":
-			it = fmt.Sprintf("(to_int %s)", x)
-		case "math.Ceil":
-			it = fmt.Sprintf("(- (to_int (- %s)))", x)
-		case "math.Trunc":
-			it = fmt.Sprintf("(ite (>= %s 0.0) (to_int %s) (- (to_int (- %s))))", x, x, x)
-		default: // Round: half away from zero
-			it = fmt.Sprintf("(ite (>= %s 0.0) (to_int (+ %s 0.5)) (- (to_int (+ (- %s) 0.5))))", x, x, x)
-		}
-		it = fv.name("ri", it, "Int")
+		it := fv.roundInt(x, strings.ToLower(name))
 		rt := fmt.Sprintf("(to_real %s)", it)
 		if fv.intOf == nil {
 			fv.intOf = map[string]string{}
@@ -413,7 +445,12 @@ func (fv *FnV) evalExternal(st *State, call *ast.CallExpr, o *types.Func) []Val 
 		return []Val{{rt, realT}}
 	case "math.Modf":
 		t := fv.name("mf", a(0), "Real")
-		ip := fv.name("ip", fmt.Sprintf("(ite (>= %s 0.0) (to_real (to_int %s)) (- (to_real (to_int (- %s)))))", t, t, t), "Real")
+		it := fv.roundInt(t, "trunc")
+		ip := fmt.Sprintf("(to_real %s)", it)
+		if fv.intOf == nil {
+			fv.intOf = map[string]string{}
+		}
+		fv.intOf[ip] = it
 		return []Val{{ip, realT}, {fmt.Sprintf("(- %s %s)", t, ip), realT}}
 	case "math.IsNaN":
 		fv.tag("no-nan")
@@ -653,6 +690,18 @@ func (fv *FnV) evalSpecCall(st *State, call *ast.CallExpr, name string, o *types
 	case "truncF":
 		a := fv.eval(st, call.Args[0])
 		return Val{fmt.Sprintf("(ite (>= %s 0.0) (to_int %s) (- (to_int (- %s))))", a.T, a.T, a.T), rt}
+	case "isIntegral":
+		a := fv.eval(st, call.Args[0])
+		return Val{fmt.Sprintf("(is_int %s)", a.T), rt}
+	case "fresh":
+		// the reference was allocated during the call: not allocated in the pre-state
+		a := fv.eval(st, call.Args[0])
+		sf := fv.specTop()
+		os := st
+		if sf != nil && sf.oldSt != nil {
+			os = sf.oldSt
+		}
+		return Val{fmt.Sprintf("(and (not (= %s 0)) (not (select %s %s)) (select %s %s))", a.T, fv.heapGet(os, "$alloc"), a.T, fv.heapGet(st, "$alloc"), a.T), rt}
 	case "same":
 		a := fv.eval(st, call.Args[0])
 		b := fv.eval(st, call.Args[1])
